@@ -100,8 +100,14 @@ func newLockAnalysis(w *World, pkgRel string) (*lockAnalysis, error) {
 					}
 				case *ssa.Call:
 					c := in.Call.StaticCallee()
+					expArg := -1
 					if c != nil && c.Name() == "Export" && c.Signature.Recv() != nil && typeIs(c.Signature.Recv().Type(), "github.com/godbus/dbus", "Conn") {
-						if mi, ok := in.Call.Args[1].(*ssa.MakeInterface); ok {
+						expArg = 1
+					} else if in.Call.IsInvoke() && in.Call.Method.Name() == "Export" && dbusConnImplements(w, in.Call.Value.Type()) {
+						expArg = 0 // the bus connection behind an interface of the repository's own
+					}
+					if expArg >= 0 && expArg < len(in.Call.Args) {
+						if mi, ok := in.Call.Args[expArg].(*ssa.MakeInterface); ok {
 							ms := w.Prog.MethodSets.MethodSet(mi.X.Type())
 							for i := 0; i < ms.Len(); i++ {
 								if ms.At(i).Obj().Exported() {
@@ -460,4 +466,20 @@ func (a *lockAnalysis) Races() (races []lsRace, shared []string, nloc int) {
 		}
 	}
 	return
+}
+
+// dbusConnImplements: t is an interface type that *dbus.Conn satisfies and that has dbus.Conn's Export signature.
+func dbusConnImplements(w *World, t types.Type) bool {
+	it, ok := t.Underlying().(*types.Interface)
+	if !ok {
+		return false
+	}
+	for _, p := range w.Prog.AllPackages() {
+		if p.Pkg.Path() == "github.com/godbus/dbus" {
+			if tn, ok := p.Members["Conn"].(*ssa.Type); ok {
+				return types.Implements(types.NewPointer(tn.Type()), it)
+			}
+		}
+	}
+	return false
 }
